@@ -14,8 +14,11 @@ import sys
 import time
 
 VERIF = os.path.dirname(os.path.dirname(os.path.abspath(__file__)))
-OUT = os.path.join(VERIF, 'out')
 REPO = os.environ.get('VERIF_REPO', '/repo')
+_OUT_ROOT = os.path.join(VERIF, 'out')
+# event logs, generated files and replay files of runs against another tree (VERIF_REPO) live in
+# their own directory, so such runs can go on next to each other and next to a run against /repo
+OUT = _OUT_ROOT if REPO == '/repo' else os.path.join(_OUT_ROOT, 'alt-' + hashlib.sha1(REPO.encode()).hexdigest()[:10])
 MAX_VIOLATION_LINES = 12
 
 
@@ -31,7 +34,7 @@ def log(msg):
 
 def _build_dir():
     tag = 'default' if REPO == '/repo' else hashlib.sha1(REPO.encode()).hexdigest()[:10]
-    return os.path.join(OUT, 'build', tag)
+    return os.path.join(_OUT_ROOT, 'build', tag)
 
 
 def _prepare_build_dir():
@@ -308,10 +311,12 @@ class Verdict:
             'violations': len(new),
         }
         if not replay_mode:
-            os.makedirs(os.path.join(VERIF, 'evidence'), exist_ok=True)
-            tmp = os.path.join(VERIF, 'evidence', '%s.json.tmp' % self.prop)
+            # runs against another tree (mutants, seeded changes) keep their evidence apart
+            evdir = os.path.join(VERIF, 'evidence') if REPO == '/repo' else os.path.join(OUT, 'evidence')
+            os.makedirs(evdir, exist_ok=True)
+            tmp = os.path.join(evdir, '%s.json.tmp' % self.prop)
             json.dump(ev, open(tmp, 'w'), indent=1, sort_keys=True)
-            os.replace(tmp, os.path.join(VERIF, 'evidence', '%s.json' % self.prop))
+            os.replace(tmp, os.path.join(evdir, '%s.json' % self.prop))
 
         for sig, k in known_open.items():
             if sig in seen_known:
